@@ -80,6 +80,11 @@ def coeff_templates(alg):
     if two:
         sp = 'e' + two[0][2] + two[0][1]
         t += [('coeff:permuted-spelling', f'(x.{sp}*y)', True)]
+    three = [n for n in names if len(n) == 4]
+    if three:
+        from itertools import permutations
+        for perm in list(permutations(three[0][1:]))[1:]:
+            t += [('coeff:permuted-spelling3', f"(x.e{''.join(perm)}*y)", True)]
     return t
 
 
